@@ -150,6 +150,26 @@ def gen_redeclare_case(rnd):
     return src, m
 
 
+def gen_moved_case(rnd):
+    """a tree made by moving: a parsed document, and a copy of another parsed document's root appended below one of
+    its elements (DESIGN finding 13a: an un-namespaced node that comes to lie under a default namespace declaration)"""
+    return {"route": "moved", "src": gen_src(rnd), "child": gen_src(rnd), "at": rnd.randrange(6)}
+
+
+def make_root(case, build):
+    """the root node a case describes: parsed, built through the API, or parsed and then edited by a move"""
+    if case["route"] == "parse":
+        return Document(case["src"]).root
+    if case["route"] == "moved":
+        root = Document(case["src"]).root
+        child = Document(case["child"]).root.clone(deep=True)
+        tags = bfs_tags(root)
+        with altered_default_filters():
+            tags[case["at"] % len(tags)].append_children(child)
+        return root
+    return build(case["tree"])
+
+
 def caller_term(m):
     if not m:
         return "[]"
